@@ -827,6 +827,10 @@ class CallMixin:
         if name in ("add", "update", "extend", "insert", "clear", "discard", "remove", "setdefault", "difference_update", "intersection_update", "symmetric_difference_update", "sort", "reverse"):
             return Cst(None)
         if name == "get":
+            # dict.get(key[, default]): the default when the key is absent (the same question as
+            # `key in collection`, asked under the same decision key), the element otherwise
+            if not self.decide(f"in:{self.describe(args[0])}:{sc.desc}"):
+                return args[1] if len(args) > 1 else Cst(None)
             return self.scoll_elem(sc, self.describe(args[0]))
         if name in ("items", "values", "keys", "copy"):
             return sc
